@@ -6,7 +6,11 @@
     for every short input over boundary bytes / hostile characters; table index always inside the table.
  3. C->S: the real base64encode/base64decode (built with -fsanitize=address,bounds
     -fno-sanitize-recover=bounds) run on  (a) every byte string of length <= 2,  (b) seeded random strings,
-    (c) hostile decode texts over 0..255;  TLC evaluates L1 on every recorded case (Base64Check.tla).
+    (c) hostile decode texts over 0..255, (d) long inputs (to 20 000 bytes: the int accumulators wrap);
+    TLC evaluates L1 on every recorded case (Base64Check.tla).  The random / hostile / long families are run in
+    several builds of the driver (g++ -O1, g++ -O2 -funsigned-char, clang++ -O2; g++ -O0 -fsigned-char in the thorough tier).
+ A driver that dies, hangs (per-line CPU limit) or does not build against the tree ends in a VIOLATION, not in a
+ machinery error, whenever the property's functions are at fault (vlib/tables.py).
 """
 import os, random
 from concurrent.futures import ThreadPoolExecutor
@@ -19,6 +23,13 @@ BOUNDARY32 = [0, 1, 2, 3, 4, 15, 16, 31, 32, 47, 48, 62, 63, 64, 65, 95, 96, 126
               223, 224, 251, 252, 254, 255]
 FLAGS = ["-fsanitize=bounds", "-fno-sanitize-recover=bounds"]
 PER_LINE = 64
+# build flavours (configuration axes: compiler, optimisation level, signedness of plain char); all with ASan + bounds
+FLAVOURS = {"asan": tables.Flavour("asan"),
+            "O2u": tables.Flavour("O2u", flags=["-O2", "-funsigned-char"]),
+            "clangO2": tables.Flavour("clangO2", cxx="clang++", flags=["-O2"]),
+            "O0s": tables.Flavour("O0s", flags=["-O0", "-fsigned-char"])}
+SECONDARY_FAMILIES = ("rnd-enc", "hostile-dec", "long-enc", "long-dec", "exh3q-enc", "upstream-enc", "upstream-dec")
+BOUNDARY16 = [0, 1, 62, 63, 64, 127, 128, 129, 191, 192, 193, 223, 251, 252, 254, 255]
 
 
 def src():
@@ -76,6 +87,8 @@ def scripts(ctx):
     ex = [[]] + [[a] for a in range(256)] + [[a, b] for a in range(256) for b in range(256)]
     out["exh-enc"] = pack("E", ex)
     out["exh-dec"] = pack("D", ex)
+    # every string of length 3 (one complete 24-bit group) over 16 boundary bytes; 32 in the thorough tier
+    out["exh3q-enc"] = pack("E", [[a, b, c] for a in BOUNDARY16 for b in BOUNDARY16 for c in BOUNDARY16])
     if not q:
         ex3 = [[a, b, c] for a in BOUNDARY32 for b in BOUNDARY32 for c in BOUNDARY32]
         out["exh3-enc"] = pack("E", ex3)
@@ -94,13 +107,34 @@ def scripts(ctx):
     # (c) hostile decode texts
     nh = 20000 if q else 300000
     out["hostile-dec"] = pack("D", [hostile_text(rnd) for _ in range(nh)])
+    # (u) the upstream test's own vectors (test/test_xbase64.cpp: the prefixes of "foobar"), both directions
+    fb = [list(b"foobar"[:k]) for k in range(7)]
+    out["upstream-enc"] = pack("E", fb)
+    out["upstream-dec"] = pack("D", [list(x) for x in (b"", b"Zg==", b"Zm8=", b"Zm9v", b"Zm9vYg==", b"Zm9vYmE=", b"Zm9vYmFy")])
+    # (d) long inputs: every length residue, lengths around powers of two, up to 20 000 bytes; the int accumulators of
+    #     both functions wrap from the 4th byte / 6th character on.  Long decode texts: a long alphabet run, optionally
+    #     ended by a hostile character somewhere and continued
+    lens = [401, 402, 403, 511, 512, 513, 1023, 1024, 1025, 1026, 4095, 4096, 4097, 20000] + \
+           [rnd.randrange(400, 3000) for _ in range(40 if q else 600)] + [rnd.randrange(3000, 20001) for _ in range(4 if q else 40)]
+    out["long-enc"] = pack("E", [rbytes(rnd, n) for n in lens], per=4)
+    ld = []
+    for n in lens:
+        t = py_encode_text(rnd, n)
+        if rnd.random() < 0.5:
+            k = rnd.randrange(0, n)
+            t[k] = rnd.choice(HOSTILE)
+            if rnd.random() < 0.5:
+                t[k + 1:] = [rnd.randrange(256) for _ in range(n - k - 1)]
+        ld.append(t)
+    out["long-dec"] = pack("D", ld, per=4)
     return out
 
 
-def build(ctx):
-    drv = os.path.join(ctx.work, "base64_driver")
-    core.build(ctx, src(), drv, flags=FLAGS)
-    return drv
+def build(ctx, flavour="asan"):
+    """-> path of the driver built in that flavour, or None after a VIOLATION (the property's functions cannot be called)"""
+    fl = FLAVOURS[flavour or "asan"]
+    return tables.build_driver(ctx, "C13", src(), os.path.join(ctx.work, "base64_driver_" + fl.name),
+                               os.path.join(core.HARNESS, "base64", "api_probe.cpp"), flags=FLAGS, flavour=fl)
 
 
 def describe(line):
@@ -108,7 +142,7 @@ def describe(line):
 
 
 def replay(ctx, path):
-    return tables.replay(ctx, path, "Base64Check", "Base64Check.cfg", build(ctx), pid="C13")
+    return tables.replay(ctx, path, "Base64Check", "Base64Check.cfg", lambda bld: build(ctx, bld), pid="C13")
 
 
 def selftest(ctx):
@@ -123,33 +157,53 @@ def selftest(ctx):
 def run(ctx):
     q = ctx.quick
     W = tables.tlc_workers()
-    with ThreadPoolExecutor(3) as ex:      # the two model-checking runs overlap with compiling the harness
+    flavours = ["asan", "O2u", "clangO2"] + ([] if q else ["O0s"])
+    with ThreadPoolExecutor(4) as ex:      # the model-checking runs overlap with compiling the harness
         f1 = ex.submit(core.tlc_model_check, ctx, "Base64MC", "Base64_mc.cfg" if q else "Base64_mc_thorough.cfg",
                        "L1 laws: two definitions agree, RFC 4648 vectors, round trip, shape", workers=W)
         f2 = ex.submit(core.tlc_model_check, ctx, "Base64Impl", "Base64Impl_mc.cfg" if q else "Base64Impl_mc_thorough.cfg",
-                       "L2 accumulators compute Encode/DecodePrefix; index in table; terminates", coverage=not q, workers=W)
-        drv = build(ctx)
+                       "L2 accumulators (exact 32-bit int) compute Encode/DecodePrefix; index in table; terminates", coverage=not q, workers=W)
+        f3 = ex.submit(core.tlc_model_check, ctx, "Base64Impl", "Base64Impl_mc_wrap.cfg" if q else "Base64Impl_mc_wrap_thorough.cfg",
+                       "L2 on inputs long enough for the int accumulator to wrap (to %d bytes / %d characters over 4 values)" % ((6, 8) if q else (8, 9)),
+                       workers=W)
+        drvs = {f: d for f, d in zip(flavours, ex.map(lambda f: build(ctx, f), flavours))}
         sc = scripts(ctx)
-        r, r2 = f1.result(), f2.result()
+        r, r2, r2w = f1.result(), f2.result(), f3.result()
+    if any(d is None for d in drvs.values()):      # the functions cannot be called as the property states: reported by build()
+        return core.finish(ctx, "exploration", rule="the conformance driver does not build against this tree; no case was run",
+                           assumptions=[], exhaustive=False)
     # ---- 1. L1 laws
     if r["violated"]:
         raise MachineryError("Base64.tla violates its own laws (%s): oracle bug, see %s" % (r["violated"], r["outfile"]))
     # ---- 2. L2 accumulator machine computes L1
-    if r2["violated"]:
-        ctx.drift.append("Base64Impl.tla does not compute Base64.tla's functions (%s); see %s" % (r2["violated"], r2["outfile"]))
+    for x in (r2, r2w):
+        if x["violated"]:
+            ctx.drift.append("Base64Impl.tla does not compute Base64.tla's functions (%s); see %s" % (x["violated"], x["outfile"]))
     if not q:
         ctx.notes["l2_action_coverage"] = r2.get("coverage", {})
         ctx.notes["vacuous_actions"] = sorted(k for k, v in r2.get("coverage", {}).items() if v[1] == 0 and k[0].isupper())
         # negative control: the pre-repair index expression T[std::size_t(char)] leaves the table
         r3 = core.tlc(ctx, "Base64Impl", "Base64Impl_signedchar.cfg", name="l2-signed-char-index", workers=W)
         ctx.notes["l2_signed_char_index_control"] = "IndexInTable violated as expected" if r3["violated"] else "NOT violated (control failed)"
+        # observation (not part of the property): by the letter of C++14 the unmasked int accumulator is shifted left while
+        # negative / beyond unsigned int for inputs of >= 5 bytes (7 characters); g++ and clang++ define that as wrap-around
+        r4 = core.tlc(ctx, "Base64Impl", "Base64Impl_shiftub.cfg", name="l2-shift-ub-observation", workers=W)
+        ctx.notes["l2_shift_ub_observation"] = ("NoShiftUB violated (as on the unchanged tree): the accumulator is left-shifted while negative / "
+                                                "overflowing on long inputs; results are unaffected (Refines holds on the exact 32-bit model)"
+                                                if r4["violated"] else "NoShiftUB holds")
 
     jobs = []
     for name, lines in sc.items():
         for i, ch in enumerate(split(lines, 2 if q else (8 if len(lines) > 2000 else 4))):
-            jobs.append(tables.Job("%s-%d" % (name, i), drv, ch))
+            jobs.append(tables.Job("%s-%d" % (name, i), drvs["asan"], ch, bld="asan"))
+    for f in flavours[1:]:
+        for name in SECONDARY_FAMILIES:
+            lines = sc[name] if q or len(sc[name]) < 400 else sc[name][:len(sc[name]) // 4]
+            for i, ch in enumerate(split(lines, 1 if q else 2)):
+                jobs.append(tables.Job("%s-%s-%d" % (name, f, i), drvs[f], ch, bld=f))
     ncases = sum(len(l["c"]) for j in jobs for l in j.lines)
-    ctx.log("C->S: %d cases in %d tables" % (ncases, len(jobs)))
+    ctx.log("C->S: %d cases in %d tables, builds %s" % (ncases, len(jobs), flavours))
+    ctx.notes["build_flavours"] = {f: " ".join([FLAVOURS[f].cxx or core.CXX] + FLAVOURS[f].flags) for f in flavours}
     ctx.sample({"script": [str(sc["rnd-enc"][0]["c"][:3]), str(sc["hostile-dec"][0]["c"][:4])]})
     ok = tables.validate(ctx, "Base64Check", "Base64Check.cfg", jobs, describe=describe)
     ctx.cov["distinct_nontrivial"] = ncases
@@ -157,13 +211,21 @@ def run(ctx):
     ctx.log("TLC accepted %d of %d recorded cases" % (ok, ncases))
     return core.finish(
         ctx, "exploration",
-        rule="every byte string of length <= 2 over 0..255 (65 793) through encode, decode(encode) and as decode text%s; "
-             "seeded random byte strings (length 0..64, some to 400) and hostile decode texts (alphabet run + padding / whitespace / "
-             "NUL / bytes >= 0x80 / truncated groups); one case = one call with its returned string compared by TLC with "
-             "Base64.tla; harness under ASan + -fsanitize=bounds (abort on any index outside the decode table)"
-             % ("" if q else "; length 3 over 32 boundary bytes; decode texts of length 3-4 over 16 characters"),
-        assumptions=["std::string arguments of length <= 15 live in the small-string buffer, so a read past such an argument is only "
-                     "detected beyond the string object (the object itself is heap-allocated)",
-                     "L2 keeps the int accumulator modulo 2^16 (WindowInv shows higher bits are never read); signed overflow of the "
-                     "real accumulator on long inputs is not modelled"],
+        rule="every byte string of length <= 2 over 0..255 (65 793) through encode, decode(encode) and as decode text; every string of "
+             "length 3 over %d boundary bytes%s; seeded random byte strings (length 0..64, some to 400) and hostile decode texts (alphabet "
+             "run + padding / whitespace / NUL / bytes >= 0x80 / truncated groups); long inputs (400..20 000 bytes, every length residue, "
+             "lengths around 512/1024/4096) for both functions; one case = one call with its returned string compared by TLC with "
+             "Base64.tla; harness under ASan + -fsanitize=bounds (abort on any index outside the decode table); the random, hostile, "
+             "long and length-3 families are repeated in the builds %s"
+             % (16 if q else 32, "" if q else "; decode texts of length 3-4 over 16 characters", ", ".join(flavours[1:])),
+        assumptions=["a read BEHIND an argument string is an ASan report for every length (heap block of exact size; for the small-string "
+                     "buffer the bytes behind the terminator are poisoned by hand); a read BEFORE it is detected for arguments of >= 16 "
+                     "bytes only (for shorter ones the preceding bytes are the string object's own fields)",
+                     "the int accumulators are left-shifted while negative / overflowing for inputs of >= 5 bytes (7 characters): undefined "
+                     "by the letter of C++14, wrap-around for g++ and clang++ (and since C++20). The property speaks of results and of "
+                     "table / input indexing only, so this is recorded as an observation; results are compared under every build flavour "
+                     "listed, not under -fsanitize=shift",
+                     "URL-safe alphabet: not provided by the header, nothing to check",
+                     "compilers/platform: g++ 12 and clang++ 14 on x86-64 Linux (plain char signed by default; -funsigned-char and "
+                     "-fsigned-char builds included)"],
         exhaustive=False)
